@@ -26,6 +26,8 @@ def default_tags(d):
     if d is None:
         return ["default:none"]
     tags = []
+    if d["kind"] == "func":
+        return ["default:func"]
     if d["kind"] == "str":
         tags.append("default:str-plain" if G.str_plain(d["v"]) else "default:str-nonplain")
     else:
@@ -206,6 +208,8 @@ def run_pair(ctx, a, b, ct, cd, batch, pending, compare_model=True):
     """quiet + correspondence + converge for one (A, B, settings).  Returns a summary string."""
     inp = {"a": a, "b": b, "ct": ct, "cd": cd, "batch": batch}
     flags = sorted(G.schema_flags(a) | G.schema_flags(b))
+    if "default-func" in flags:
+        compare_model = False  # SQL function defaults are judged by the implementation-side oracle only
     in_class = not flags and pair_wf(a, b)
     mda, mdb = S.build_metadata(a), S.build_metadata(b)
     eng = S.new_engine()
@@ -322,6 +326,8 @@ def default_value(d):
         return None
     if d["kind"] == "str":
         return d["v"]
+    if d["kind"] == "func":
+        return "<func %s>" % d["v"]
     e = d["v"].strip(" \t\n\r")
     if len(e) >= 2 and e[0] == "(" and e[-1] == ")":
         e = e[1:-1].strip(" \t\n\r")
